@@ -95,6 +95,20 @@ CHECKS["C11"] = {
     "assumptions": ["AKEP2 message layouts as read from the protocol exchange", _SAMPLING],
 }
 
+CHECKS["C13"] = {
+    "level": "exploration",
+    "technique": _TECH + ": every wire-facing decoder as a task fed by a corrupting, truncating, bloating peer (plaintext and encrypted-by-a-key-holding-peer); panic / no-return / allocation / cap oracles; real-time watchdog for spins",
+    "level_text": "Structured fault exploration over decoder inputs delivered through the simulated connection: for each entry point (typed Get* mix, bounded string, SkipString, GetClassAd, GetClassAdWithMaxSize, GetClassAdRaw, SkipClassAdRaw, CCB control and reverse-connect ads, stream-level ReceiveCompleteMessage / StartMessageRead, NewStreamWithCryptoState blobs, and the real ServerHandshake / ClientHandshake fed with a recorded CLAIMTOBE or TOKEN transcript of the other side) a valid message is rendered, then every 8-byte window is overwritten with 10 extreme values (negative, 0, 1, 2^31-1, 2^31, 2^40, 2^62, -2^63, ...), every byte flipped, the message cut at every offset, terminators deleted, the in-band secret marker inserted, values 10-100x the cap inserted for capped readers, hostile framing injected (hundreds of thousands of empty partial frames, huge lengths, bad end flags) - in plaintext and, for the typed layer, encrypted by a peer that holds the key. Oracle per case: the decoder task does not panic, has returned once the peer closed (a task that never reaches a simulator primitive is caught by a 20 s real-time watchdog and reported as no-progress), heap+stack growth during the call <= 64 KiB + 64 x bytes delivered, capped readers fail and consume at most cap + two frames; a worker killed by the address-space limit is attributed to the case that was running (process-crash).",
+    "level_note": "The text parsers named by the property (claim ids, session info, inherit strings, sinful/address/version) are pure functions of a string; they are fed mutated strings by a plain loop inside the same binary - a non-simulation add-on counted in the probes as 'text-parsed'; the claim and its level rest on the wire-facing part. SSL receiveMessage, SCITOKENS and KERBEROS message readers are not reached (those methods do not run in the simulator).",
+    "budget": {"quick": 30, "thorough": 900},
+    "crash_is_violation": True,
+    "mem_gb": 4,
+    "rule": "a case is one (entry point, crypto mode, mutation, offset, value) delivered to the real decoder over a simulated connection with drawn short reads; distinct = distinct event-log hash; non-trivial = scheduler had a choice.",
+    "real": ["message.Message decoders", "message ClassAd readers", "stream.Stream receive paths and NewStreamWithCryptoState", "security.Authenticator handshake entry points (CLAIMTOBE, TOKEN, exchangeKey)", "ccb.ReadControlAd / ReadReverseConnectAd", "text parsers (add-on)"],
+    "stub": _SIM + ["corrupting peer (mutated recordings)"],
+    "assumptions": ["allocation is attributed by runtime/metrics deltas around the serialised decoder call", _SAMPLING],
+}
+
 CHECKS["C16"] = {
     "level": "exploration",
     "technique": _TECH + ": minter node and importer node with separate caches on the simulated network; generated mint options; real handshakes naming the session in both dial directions; virtual-time lifetime",
